@@ -1299,6 +1299,64 @@ mod http_mock {
 	}
 }
 
+/// C05: the stream yields its notifications in order WITHOUT HOLES: once one was discarded because the consumer lagged, no later
+/// one is yielded (the send task is kept busy inside a slow transport send, so the closure request is not handled meanwhile).
+pub fn client_lagged_stream_no_holes() -> Value {
+	use std::time::Duration;
+	let fail = |input: String, obs: String| json!({"probe":"client_lagged_stream_no_holes","disagrees":true,"input":input,"observed":obs,
+		"expected":"the buffered notifications in order, then the end of the stream (or nothing more): never a notification after a discarded one"});
+	rt().block_on(async {
+		let mut tried = 0u64;
+		for cap in 1..=3usize {
+			for packed in [false, true] {
+				tried += 1;
+				let (c, mut peer, gate, mut entered) = mock::gated_client(ClientBuilder::default().max_buffer_capacity_per_subscription(cap).request_timeout(Duration::from_secs(5)));
+				let c = std::sync::Arc::new(c);
+				// a fence: a method-notification stream; once its marker is read, the read task has handled everything pushed before it
+				let mut fence: Subscription<Value> = c.subscribe_to_method("fence").await.unwrap();
+				let c2 = c.clone();
+				let sub_task = tokio::spawn(async move { c2.subscribe::<u64, _>("sub", rpc_params![], "unsub").await });
+				let m = peer.next().await.unwrap();
+				peer.send(&json!({"jsonrpc":"2.0","id":id_of(&m),"result":"A"}).to_string());
+				let mut sub = sub_task.await.unwrap().unwrap();
+				// the send task gets stuck inside the transport
+				let c3 = c.clone();
+				let blocked = tokio::spawn(async move { c3.request::<u64, _>("block", rpc_params![]).await });
+				let _ = tokio::time::timeout(Duration::from_secs(2), entered.recv()).await;
+				let n = |k: u64| json!({"jsonrpc":"2.0","method":"n","params":{"subscription":"A","result":k}});
+				// cap notifications fill the buffer, the next one is discarded
+				let first: Vec<Value> = (0..=cap as u64).map(n).collect();
+				if packed { peer.send(&Value::Array(first).to_string()); } else { for v in first { peer.send(&v.to_string()); } }
+				peer.send(&json!({"jsonrpc":"2.0","method":"fence","params":[1]}).to_string());
+				let _ = tokio::time::timeout(Duration::from_secs(2), fence.next()).await;
+				// the consumer takes one item: there is room again
+				let got0 = tokio::time::timeout(Duration::from_secs(1), sub.next()).await;
+				let desc = format!("buffer {cap}, notifications 0..={cap} sent {} while the send task is inside a slow transport send (so {cap} is discarded); the consumer reads one; the server sends {}", if packed {"in one array"} else {"singly"}, cap + 1);
+				if !matches!(got0, Ok(Some(Ok(0)))) {
+					return fail(desc, format!("first item: {:?}", got0.map(|o| o.map(|r| r.map_err(|e| e.to_string())))));
+				}
+				peer.send(&n(cap as u64 + 1).to_string());
+				peer.send(&json!({"jsonrpc":"2.0","method":"fence","params":[2]}).to_string());
+				let _ = tokio::time::timeout(Duration::from_secs(2), fence.next()).await;
+				let mut seen = vec![0u64];
+				loop {
+					match tokio::time::timeout(Duration::from_millis(250), sub.next()).await {
+						Ok(Some(Ok(v))) => seen.push(v),
+						_ => break,
+					}
+				}
+				gate.notify_one();
+				let _ = blocked;
+				let want: Vec<u64> = (0..cap as u64).collect();
+				if seen != want {
+					return fail(desc, format!("the stream yielded {seen:?}"));
+				}
+			}
+		}
+		json!({"probe":"client_lagged_stream_no_holes","disagrees":false,"inputs_tried":tried,"bound":"buffers 1..3, single / array delivery, one notification after the discarded one"})
+	})
+}
+
 /// C03 / C12: the ids that calls, subscribes and batch entries have on the wire while they are pending together are pairwise
 /// distinct (both clients), and an answer to an entry of one batch never completes another batch.
 pub fn client_pending_ids_distinct() -> Value {
